@@ -322,7 +322,7 @@ type fsSite struct {
 // pathOperands maps primitives to the indices of their path operands (receiver = 0 for methods).
 var pathOperands = map[string][]int{
 	"os.Open": {0}, "os.OpenFile": {0}, "os.Stat": {0}, "os.Lstat": {0}, "os.Remove": {0}, "os.RemoveAll": {0},
-	"os.Rename": {0, 1}, "os.MkdirAll": {0}, "os.Mkdir": {0}, "os.CreateTemp": {0}, "os.Create": {0},
+	"os.Rename": {0, 1}, "os.MkdirAll": {0}, "os.Mkdir": {0}, "os.MkdirTemp": {0}, "os.CreateTemp": {0}, "os.Create": {0},
 	"os.WriteFile": {0}, "os.Truncate": {0}, "os.ReadFile": {0}, "os.ReadDir": {0}, "os.Link": {0, 1}, "os.Symlink": {0, 1},
 	"os.Chmod": {0}, "os.Chown": {0},
 }
